@@ -284,6 +284,9 @@ func (p *Profile) Concretise(m M) (msg sdk.Msg, err error) {
 			err = fmt.Errorf("concretise %v: %v", m["type"], r)
 		}
 	}()
+	if msg, ok, err := p.concretiseData(m); ok {
+		return msg, err
+	}
 	switch str(m, "type") {
 	case "CreateClass":
 		return &basetypes.MsgCreateClass{Admin: AddrStr(str(m, "admin")), Issuers: addrs(strList(m, "issuers")),
